@@ -66,14 +66,15 @@ class Project:
 		return mp
 
 	def add_real(self, mp: str) -> str:
+		"""a real module is snapshotted into the project under its own module path (the project directory comes first in
+		SourceEnvPath), so the text that is checked is the text that is parsed even while the repository is being edited"""
 		with open(os.path.join(common.REPO, mp.replace('.', os.sep) + '.py'), encoding='utf-8', newline='') as f:
-			self.sources[mp] = f.read()
-		self.labels[mp] = mp.replace('.', os.sep) + '.py'
-		return mp
+			src = f.read()
+		return self.add_source(mp, src, mp.replace('.', os.sep) + '.py')
 
 	def cwd_for(self, mp: str) -> str:
 		"""ErrorRender looks the module file up relative to the working directory"""
-		return self.proj.root if mp in self.sources and mp.startswith('gen.') else common.REPO
+		return self.proj.root
 
 
 def eof_variant_of(rng: random.Random, src: str, unit: str) -> tuple[str, str]:
